@@ -134,6 +134,9 @@ _add("sign", "receipt", ["ERR_AUTH_RECEIPT_RLP", "ERR_AUTH_RECEIPT_INVALID"], -1
 _add("sign", "merkle", ["ERR_AUTH_NODE_INVALID_VERSION", "ERR_AUTH_RECEIPT_HASH_MISMATCH",
                         "ERR_AUTH_NODE_CHAINING_MISMATCH", "ERR_AUTH_RECEIPT_ROOT_MISMATCH"], -101)
 _add("sign.hash", "path", ["ERR_AUTH_INVALID_PATH"], -103)
+# auth.c raises this one when the payload after the path of a hash-only key is not a 32-byte hash:
+# the message is what is wrong ("invalid message"), not the key id
+_add("sign.hash", "path", ["ERR_AUTH_INVALID_DATA_SIZE_UNAUTH_SIGN"], -102)
 _add("getPubKey", "pubkey", ["ERR_INVALID_PATH"], -103)
 
 _ALL = {}
